@@ -114,7 +114,22 @@ Definition mw_spec (c : mw_case) : bool :=
         existsb (fun r => match r with None => true | Some _ => false end) (route_outcomes c)
   end.
 
-Definition mw_check (c : mw_case) : bool * bool := (mw_agree c, mw_spec c).
+(** the retry-key computation is the same decision: it records the selected CLUSTER (not the key) as the locked
+    destination with the route's timeout, or leaves the call untouched; the key is the cluster, or cluster|method *)
+Definition key_spec (c : mw_case) : bool :=
+  let e := mk_obs_key_eff c in
+  match mk_pre c with
+  | Some t => String.eqb (mk_obs_key c) t && opt_eqb String.eqb (mo_tag e) (Some t) && negb (mo_locked e) && Z.eqb (mo_timeout e) (mk_t0 c)
+  | None =>
+      existsb (fun r => match r with
+                        | Some (s, tmo) =>
+                            opt_eqb String.eqb (mo_tag e) (Some s) && mo_locked e && Z.eqb (mo_timeout e) tmo &&
+                            String.eqb (mk_obs_key c) (if mk_match_method c then s ++ "|" ++ k_to_method (mk_call c) else s)
+                        | None => opt_eqb String.eqb (mo_tag e) None && negb (mo_locked e) && Z.eqb (mo_timeout e) (mk_t0 c) && String.eqb (mk_obs_key c) ""
+                        end) (route_outcomes c)
+  end.
+
+Definition mw_check (c : mw_case) : bool * bool := (mw_agree c, mw_spec c && key_spec c).
 
 (** resolver *)
 Record res_case := {
